@@ -451,6 +451,42 @@ def range_index(W, t):
     return {"container": cont, "site": site}
 
 
+def zero_fill(W, ev, t):
+    """If `t` is a byte vector consisting of n zero bytes, return the term of n: `vec![0; n]`, `[0; n]`, or a fresh vector (`new`,
+    `with_capacity`) that receives exactly one `resize(n, 0)`.  Else None."""
+    if not isinstance(t, tuple) or not t:
+        return None
+    if is_call(t) and callee_name(t[1]) == "from_elem" and len(t[2]) == 2 and t[2][0] == ("int", 0):
+        return t[2][1]
+    if t[0] == "repeat" and t[1] == ("int", 0):
+        return ("int", t[2]) if isinstance(t[2], int) else t[2]
+    if t[0] == "obj":
+        e2 = ev if ev is not None and ev.fn.path == t[1] else W.ev(t[1])
+        inits = e2.obj_init(t[2])
+        if len(inits) != 1:
+            return None
+        init = inits[0][1]
+        z = zero_fill(W, e2, init) if not (isinstance(init, tuple) and init and init[0] == "obj") else None
+        if z is not None:
+            return z
+        if not (is_call(init) and callee_name(init[1]) in ("new", "with_capacity") and "vec::Vec" in init[1]):
+            return None
+        fills = []
+        for (b, callee, argi, ap) in e2.events_on(t[2]):
+            if argi != 0 or not e2.fn.blocks[b].term["arg_tys"][0].startswith("&mut"):
+                continue
+            nm = callee_name(callee)
+            if nm in ("deref_mut", "as_mut", "as_mut_slice", "reserve", "reserve_exact"):
+                continue
+            a = e2.call_args(b)
+            if nm == "resize" and len(a) == 3 and a[2] == ("int", 0):
+                fills.append(a[1])
+            else:
+                return None
+        return fills[0] if len(fills) == 1 else None
+    return None
+
+
 def value_holders(fn, call_bb):
     """Locals that (may) hold the value returned by the call in block call_bb, or a part of it: the destination, the results of
     unwrap/expect/`?` applied to it, and locals it is moved into (also out of an enum payload)."""
